@@ -39,7 +39,8 @@ class C17(C16):
                    ("c/ln_abs/s2.csv", "../c/ln_abs/s2.csv"), ("../root_x/secret.csv", "../../root_x/secret.csv"),
                    ("a/ln_sib/secret.csv", "ln_sib/secret.csv"), ("../outside/secret.csv", "../../outside/secret.csv"),
                    ("ln_out", "../ln_out"), ("a/ln_sib", "ln_sib"), ("ABS_OUTSIDE/s2.csv", "ABS_OUTSIDE/s2.csv"),
-                   ("a/../../root_x/secret.csv", "./../../root_x/secret.csv")]
+                   ("a/../../root_x/secret.csv", "./../../root_x/secret.csv"),
+                   ("../ROOT/secret.csv", "../../ROOT/secret.csv"), ("../ROOT", "../../ROOT")]
         for from_root, from_a in escapes:
             for place in ("root-item", "root-file", "nested-file"):
                 files = [{"rel": "f1.csv", "blocks": [t(1)]}, {"rel": "a/f2.csv", "blocks": [t(2)]}]
@@ -75,7 +76,7 @@ class C17(C16):
                 # the path handed to open/listdir is canonical: inside the root also after symlink resolution
                 # (the tree is gone by now; links were recorded in the case)
         for e in obs["events"]:
-            if e[0] == "yield" and e[1] == "TABLE" and e[3] in ("t777", "t778", "t779"):
+            if e[0] == "yield" and e[1] == "TABLE" and e[3] in ("t777", "t778", "t779", "t780"):
                 fails.append(f"escape: table {e[3]} of a file outside the root folder was loaded")
         if obs["code"] == 3 and not any(x in (obs["exc"] or "") for x in ("FileNotFoundError", "RuntimeError", "Symlink loop",
                                                                           "Too many levels", "NotADirectoryError", "IsADirectoryError",
@@ -83,7 +84,7 @@ class C17(C16):
             fails.append(f"exception: {obs['exc']}")
         return fails
 
-    HOSTILE = ("..", "ln_", "alias", "ABS_OUTSIDE", "//", "\\", "file:", "FILE:", "root_x")
+    HOSTILE = ("..", "ln_", "alias", "ABS_OUTSIDE", "//", "\\", "file:", "FILE:", "root_x", "ROOT")
 
     def nontrivial(self, case, obs):
         specs = list(case["cfg"]["roots"]) if case.get("cfg") else []
